@@ -16,6 +16,7 @@ EVID = os.path.join(ROOT, "evidence")
 
 TLC_ENV = {"JAVA_TOOL_OPTIONS": "-Xss1g -Xmx3g -Dtlc2.tool.queue.IStateQueue=StateDeque"}
 PROFILES = {"dev": "debug", "release": "release"}
+NATIVE_TARGET = os.path.join(HARNESS, "target-native")
 
 
 class ToolError(Exception):  # noqa: shared by check, s2i, progen
@@ -40,8 +41,9 @@ def run(cmd, cwd=None, env=None, timeout=None):
 
 
 # ------------------------------------------------------------------------------ build
-def build_harness():
-    """(re)build the harness against /repo's CURRENT working tree, both profiles."""
+def build_harness(native=False):
+    """(re)build the harness against /repo's CURRENT working tree, both profiles; with native=True also a
+    release build for the CPU of this machine (-C target-cpu=native: cfg(target_feature) code paths)."""
     os.makedirs(OUT, exist_ok=True)
     with open(os.path.join(HARNESS, ".buildlock"), "w") as lk:
         fcntl.flock(lk, fcntl.LOCK_EX)
@@ -51,9 +53,16 @@ def build_harness():
             rc, out = run(cmd, cwd=HARNESS, timeout=1800)
             if rc != 0:
                 raise ToolError("harness does not build against /repo (%s profile):\n%s" % (prof, out[-3000:]))
+        if native:
+            cmd = ["cargo", "build", "--offline", "--quiet", "--release", "--target-dir", NATIVE_TARGET]
+            rc, out = run(cmd, cwd=HARNESS, timeout=1800, env={"RUSTFLAGS": "-Awarnings -C target-cpu=native"})
+            if rc != 0:
+                raise ToolError("harness does not build against /repo (native profile):\n%s" % out[-3000:])
 
 
 def bsx(profile):
+    if profile == "native":
+        return os.path.join(NATIVE_TARGET, "release", "bsx")
     return os.path.join(HARNESS, "target", PROFILES[profile], "bsx")
 
 
